@@ -326,21 +326,19 @@ func CalculateRewards(
 		// Normalize share
 		normalizedShare := rawShare / totalShare
 		totalPoolRewards := uint64(float64(pots.Rewards) * normalizedShare)
+		// float64 rounding can push a share past what is left of the pot
+		if remaining := pots.Rewards - totalDistributed; totalPoolRewards > remaining {
+			totalPoolRewards = remaining
+		}
 		poolRewardAmounts[poolID] = totalPoolRewards
 		totalDistributed += totalPoolRewards
 	}
 
 	// Adjust the last pool's total rewards to ensure sum equals reward pot exactly
 	if totalDistributed != pots.Rewards && len(poolRewardAmounts) > 0 {
-		// Calculate adjustment - this may overflow in extreme cases, but Cardano values are reasonable
-		adjustment := int64(
-			pots.Rewards,
-		) - int64(
-			totalDistributed,
-		) // #nosec G115
-		poolRewardAmounts[lastPoolID] = uint64(
-			int64(poolRewardAmounts[lastPoolID]) + adjustment,
-		) // #nosec G115
+		// totalDistributed never exceeds the pot (shares are capped above), so
+		// the rounding remainder is non-negative
+		poolRewardAmounts[lastPoolID] += pots.Rewards - totalDistributed
 	}
 
 	// Now distribute rewards for each pool
@@ -461,11 +459,16 @@ func distributePoolRewards(
 
 	if totalPoolStake > 0 {
 		ownerStakeRatio := float64(ownerStake) / float64(totalPoolStake)
-		operatorRewards += uint64(
+		operatorShare := uint64(
 			float64(
 				totalPoolRewards-poolCost,
 			) * (margin + (1.0-margin)*ownerStakeRatio),
 		)
+		// float64 rounding must not take the operator past the pool total
+		if operatorShare > totalPoolRewards-poolCost {
+			operatorShare = totalPoolRewards - poolCost
+		}
+		operatorRewards += operatorShare
 	} else {
 		// If no stake, operator gets all rewards above cost
 		operatorRewards = totalPoolRewards
@@ -491,6 +494,9 @@ func distributePoolRewards(
 						stakeholderRewardsTotal,
 					),
 				)
+				if remaining := stakeholderRewardsTotal - assigned; reward > remaining {
+					reward = remaining
+				}
 				delegatorRewards[stakeKey] = reward
 				assigned += reward
 			}
